@@ -140,7 +140,48 @@ for name, nodes, ctx in idlib.base_configs():
             if a_ids[key] == b_ids[key]:
                 failures.append({"class": f"{key}-unchanged-by:sweep-sequence-element", "config": name, "mutation": plabel})
     PAIRS.clear()
-print(json.dumps({"bound": "7 base configurations x single-point mutations (string-defined processors: slice wrapped processor, rename/delete keys, template text and output key); (incl. every single element of a 9-value explicit sweep sequence) (processor, parameter value, context key, node count/order, sweep: wrapped processor, expression constant / non-commutative operator, variable domain, mode, broadcast) at every applicable position",
+
+
+def same_name_other_module():
+    """two processors with the same class name defined in different modules are different processors: plain or wrapped by a sweep /
+    a slicer, swapping one for the other changes every identity"""
+    global evaluations
+    import types
+    from semantiva.examples.test_utils import FloatOperation, FloatDataType
+    from semantiva.inspection.builder import build_inspection_payload
+    mods = {}
+    for modname, expr in (("c05_ext_a.ops", "data.data * factor"), ("c05_ext_b.ops", "data.data + factor")):
+        parent = modname.split(".")[0]
+        sys.modules.setdefault(parent, types.ModuleType(parent))
+        m = types.ModuleType(modname)
+        m.__dict__.update(FloatOperation=FloatOperation, FloatDataType=FloatDataType)
+        sys.modules[modname] = m
+        exec(compile(f"class GainOperation(FloatOperation):\n    \"\"\"Apply a gain.\"\"\"\n\n    def _process_logic(self, data, factor: float):\n        return FloatDataType({expr})\n", f"<{modname}>", "exec"), m.__dict__)
+        mods[modname] = m.GainOperation
+    a, b = mods["c05_ext_a.ops"], mods["c05_ext_b.ops"]
+    shapes = {
+        "plain": lambda c: [{"processor": "FloatValueDataSource", "parameters": {"value": 2.0}}, {"processor": c, "parameters": {"factor": 3.0}}],
+        "sweep": lambda c: [{"processor": "FloatValueDataSource", "parameters": {"value": 2.0}},
+                            {"processor": c, "derive": {"parameter_sweep": {"parameters": {"factor": "2 * t"}, "variables": {"t": [1.0, 2.0]}, "collection": "FloatDataCollection"}}}],
+    }
+    for shape, mk in shapes.items():
+        evaluations += 1
+        distinct.add(("same-name-other-module", shape))
+        try:
+            pa, pb = build_inspection_payload(mk(a)), build_inspection_payload(mk(b))
+        except Exception as e:       # noqa
+            failures.append({"class": "same-name-other-module-case-raised", "shape": shape, "exc": repr(e)[:200]})
+            continue
+        for key in ("semantic_id", "config_id"):
+            if pa["identity"][key] == pb["identity"][key]:
+                failures.append({"class": f"{key}-unchanged-by:wrapped-processor-of-the-same-name-from-another-module", "shape": shape})
+        na, nb = pa["pipeline_spec_canonical"]["nodes"][1], pb["pipeline_spec_canonical"]["nodes"][1]
+        if na["uuid"] == nb["uuid"] and na["node_semantic_id"] == nb["node_semantic_id"]:
+            failures.append({"class": "affected-node-identity-unchanged", "config": "same-name-other-module", "mutation": shape})
+
+
+same_name_other_module()
+print(json.dumps({"bound": "7 base configurations x single-point mutations (+ a processor swapped for one of the same class name from another module, plain and under a sweep; string-defined processors: slice wrapped processor, rename/delete keys, template text and output key); (incl. every single element of a 9-value explicit sweep sequence) (processor, parameter value, context key, node count/order, sweep: wrapped processor, expression constant / non-commutative operator, variable domain, mode, broadcast) at every applicable position",
                   "evaluations": evaluations, "distinct_nontrivial": len(distinct),
                   "rule": "distinct = (configuration, mutation); each mutation changes the documented meaning, so semantic_id and config_id must change",
                   "failures": failures[:40], "samples": samples}, default=str))
